@@ -695,3 +695,6 @@ fire("c06-slice-stop-not-clamped", "C06", TERMS,
 silent("c06-s-slice-clamp-two-steps", "C06", TERMS,
        "        stop = min(dtype, max(start, stop))\n", "        stop = max(start, stop)\n        stop = min(stop, dtype)\n")
 rename("C06", TERMS, "SliceMeta.__call__")
+
+fire("c15-scalar-log-zero-gives-zero", "C15", BUILTIN,
+     "    return math.log(x) if x > 0 else -math.inf", "    return math.log(x) if x > 0 else 0.0", "R15.10", "log")
